@@ -68,14 +68,22 @@ Join(parts) == IF Len(parts) = 1 THEN parts[1] ELSE parts[1] \o <<"DOT">> \o Joi
 
 HTTPParts(s) == LET segs == SplitAt(s, "SLASH") IN [i \in DOMAIN segs |-> [j \in DOMAIN segs[i] |-> Unesc(segs[i][j])]]
 
+(* the call methods the harness configures for PUT, DELETE and PATCH *)
+Mapped == [PUT |-> <<"a">>, DELETE |-> <<"a", "a">>, PATCH |-> <<"a", "a", "a">>]
+
 HTTP(method, s) ==
     LET rawOK == s # <<>> /\ "DOT" \notin Range(s) /\ s[Len(s)] # "SLASH"
         s1 == IF s # <<>> /\ s[1] = "SLASH" THEN Tail(s) ELSE s     \* one leading slash is dropped
         parts == HTTPParts(s1)
-    IN IF method = "GET"
+    IN IF method \in {"GET", "HEAD"}
        THEN LET rid == Join(parts)
             IN [valid |-> rawOK /\ s1 # <<>> /\ ValidRID(rid),
                 subs |-> {Sub("access", NameOf(rid), <<>>), Sub("get", NameOf(rid), <<>>)}]
+       ELSE IF method \in DOMAIN Mapped
+       THEN \* PUT / DELETE / PATCH with a configured call method: the whole path is the resource id
+            LET rid == Join(parts)
+            IN [valid |-> rawOK /\ s1 # <<>> /\ ValidRID(rid),
+                subs |-> {Sub("access", NameOf(rid), <<>>), Sub("call", NameOf(rid), Mapped[method])}]
        ELSE LET ok == rawOK /\ s1 # <<>> /\ Len(parts) >= 2
                 rid == IF Len(parts) >= 2 THEN Join(SubSeq(parts, 1, Len(parts) - 1)) ELSE <<>>
                 act == IF Len(parts) >= 2 THEN parts[Len(parts)] ELSE <<>>
